@@ -53,7 +53,7 @@ contract(_G + "face_jacobian", props=["C08"],
 
 # ---- search trees: "the tree handed back always reflects the element kind, coordinate system and metric requested" -----------------
 for _m, _slot in (("get_ball_tree", "_ball_tree"), ("get_kd_tree", "_kd_tree")):
-    contract(_G + _m, props=["C11", "C08"],
+    contract(_G + _m, props=["C11", "C08", "C09"],
              params={"self": f"obj('Grid', trees='{_slot}')", "coordinates": "opaque", "coordinate_system": "opaque", "distance_metric": "opaque",
                      "reconstruct": "bool"},
              returns="opaque",
